@@ -23,7 +23,7 @@ Cyc == [a |-> <<a, 1>>, R |-> ROf(<<a, 1>>, <<m, 1>>)]
 Dom == out # <<0, 0>>
 (* known finding C12-M4-ninf: goal R = -inf, cycle with R > 1 and a diagram whose (1, inf) segment has M4 # 0:
    that segment has distance 0 from the goal and is never walked, the cycle keeps its amplitude *)
-KF_C12_M4_ninf == Goal(rg) = NInf /\ ELt(One, Cyc.R) /\ Diag(dg)[1].M # Zero
+KF_C12_M4_ninf == ~CompressionLeftOfNegInf /\ Goal(rg) = NInf /\ ELt(One, Cyc.R) /\ Diag(dg)[1].M # Zero
 WalkIsIsoDamageLine == Dom => (outI = out \/ KF_C12_M4_ninf)
 EndsAtGoal == Dom => TransformI(Cyc, Diag(dg), Goal(rg)).R = Goal(rg)
 FixedPointAtGoal == (Dom /\ Cyc.R = Goal(rg)) => out = <<a, 1>>
